@@ -31,43 +31,38 @@ fn c06_configs(tier: Tier) -> Vec<TcpCfg> {
     let mut add = |name: &str, f: &dyn Fn(&mut TcpCfg)| {
         let mut c = TcpCfg::base(name);
         c.check_caps = false;
+        c.w = 2;
         f(&mut c);
         c.liveness = c.liveness && c.bounded_loss_ok();
         v.push(c);
     };
-    // MSS 1, small send buffer, one drop anywhere, eager reader
-    add("mss1-snd2-t4-D1", &|c| {
-        c.c_chunks = vec![4];
-    });
-    // small receive window, small reads (window closes and must reopen)
-    add("rcv4-mss2-rbuf1-t6-D0", &|c| {
+    // ---- quick tier: every configuration closes (frontier empty) in seconds ----
+    // MSS 1, send buffer 2, one drop anywhere, eager reader
+    add("mss1-snd2-t3-D1", &|c| c.c_chunks = vec![3]);
+    // small receive window drained in 1-byte reads (window closes and must reopen)
+    add("rcv4-mss2-rbuf1-t6-D1", &|c| {
         c.mtu = 42;
         c.send_cap = 4;
         c.recv_cap = 4;
         c.c_chunks = vec![3, 3];
         c.reader_buf = 1;
-        c.drops = 0;
-        c.d = 1;
     });
-    add("rcv2-stepped-t4-D1", &|c| {
-        c.mtu = 41;
+    add("rcv2-stepped-t2-D1", &|c| {
         c.send_cap = 4;
         c.recv_cap = 2;
-        c.c_chunks = vec![4];
+        c.c_chunks = vec![2];
         c.reader_buf = 1;
         c.reader = Pace::Stepped;
-        c.drops = 1;
     });
-    // half close with reply, one drop
+    // half close with reply
     add("halfclose-t2-s2-D1", &|c| {
         c.c_chunks = vec![2];
         c.s_bytes = 2;
-        c.mode = Mode::Sequential;
     });
     // both directions at once through owned halves
-    add("concurrent-t2-s2-D1", &|c| {
-        c.c_chunks = vec![1, 1];
-        c.s_bytes = 2;
+    add("concurrent-t1-s1-D1", &|c| {
+        c.c_chunks = vec![1];
+        c.s_bytes = 1;
         c.mode = Mode::Concurrent;
         c.send_cap = 4;
     });
@@ -75,6 +70,20 @@ fn c06_configs(tier: Tier) -> Vec<TcpCfg> {
     add("dropclose-t3-D1", &|c| {
         c.c_chunks = vec![3];
         c.mode = Mode::DropClose;
+    });
+    // segments larger than the free receive room are accepted partially
+    add("partial-mss4-rcv3-t5-D1", &|c| {
+        c.mtu = 44;
+        c.send_cap = 5;
+        c.recv_cap = 3;
+        c.c_chunks = vec![5];
+        c.reader_buf = 2;
+        c.reader = Pace::Stepped;
+    });
+    add("mss1-snd2-t2-D2", &|c| {
+        c.c_chunks = vec![2];
+        c.retx_max = 5;
+        c.drops = 2;
     });
     // retransmit budget exhausted: failure must surface as an error, never silent loss
     add("exhaust-T1-max1-D2", &|c| {
@@ -104,15 +113,19 @@ fn c06_configs(tier: Tier) -> Vec<TcpCfg> {
         c.drops = 0;
     });
     if tier == Tier::Thorough {
-        add("mss1-snd2-t4-D2-d1", &|c| {
-            c.retx_max = 4;
+        add("mss1-snd2-t4-D1-W3", &|c| {
+            c.c_chunks = vec![4];
+            c.w = 3;
+        });
+        add("mss1-snd2-t4-D2-W2", &|c| {
+            c.retx_max = 5;
             c.drops = 2;
             c.c_chunks = vec![4];
         });
-        add("mss1-snd2-t8-D1-d2", &|c| {
-            c.retx_max = 4;
+        add("mss1-snd2-t6-D1-d2", &|c| {
+            c.retx_max = 5;
             c.d = 2;
-            c.c_chunks = vec![8];
+            c.c_chunks = vec![6];
         });
         add("v6-mss2-t6-D1", &|c| {
             c.v6 = true;
@@ -124,20 +137,20 @@ fn c06_configs(tier: Tier) -> Vec<TcpCfg> {
         add("rcv2-snd4-t4-D1-eager", &|c| {
             c.send_cap = 4;
             c.recv_cap = 2;
+            c.c_chunks = vec![4];
             c.reader_buf = 1;
-            c.w = 3;
         });
-        add("rcv4-mss2-rbuf1-t6-D1", &|c| {
-            c.mtu = 42;
+        add("rcv2-stepped-t3-D1", &|c| {
             c.send_cap = 4;
-            c.recv_cap = 4;
-            c.c_chunks = vec![3, 3];
+            c.recv_cap = 2;
+            c.c_chunks = vec![3];
             c.reader_buf = 1;
-            c.drops = 1;
+            c.reader = Pace::Stepped;
         });
         add("late-reader-rcv2-t4-D1", &|c| {
             c.recv_cap = 2;
             c.send_cap = 4;
+            c.c_chunks = vec![4];
             c.reader = Pace::Late;
             c.reader_buf = 2;
             c.liveness = false;
@@ -149,16 +162,20 @@ fn c06_configs(tier: Tier) -> Vec<TcpCfg> {
         add("halfclose-t2-s2-D2", &|c| {
             c.c_chunks = vec![2];
             c.s_bytes = 2;
-            c.retx_max = 4;
+            c.retx_max = 5;
             c.drops = 2;
         });
-        add("concurrent-t3-s3-D1-d2", &|c| {
-            c.c_chunks = vec![3];
-            c.s_bytes = 3;
+        add("concurrent-t2-s2-D1", &|c| {
+            c.c_chunks = vec![1, 1];
+            c.s_bytes = 2;
             c.mode = Mode::Concurrent;
             c.send_cap = 4;
-            c.retx_max = 4;
-            c.d = 2;
+        });
+        add("dropclose-t3-D2", &|c| {
+            c.c_chunks = vec![3];
+            c.mode = Mode::DropClose;
+            c.retx_max = 5;
+            c.drops = 2;
         });
     }
     v
@@ -170,6 +187,7 @@ fn c16_configs(tier: Tier) -> Vec<TcpCfg> {
         let mut c = TcpCfg::base(name);
         c.check_caps = true;
         c.liveness = false;
+        c.w = 2;
         f(&mut c);
         v.push(c);
     };
@@ -179,16 +197,15 @@ fn c16_configs(tier: Tier) -> Vec<TcpCfg> {
         c.c_chunks = vec![1, 3, 1];
         c.reader = Pace::Late;
         c.reader_buf = 1;
-        c.drops = 1;
     });
-    add("mss2-snd5-rcv3-t7-stepped", &|c| {
+    add("mss2-snd5-rcv3-t5-stepped", &|c| {
         c.mtu = 42;
         c.send_cap = 5;
         c.recv_cap = 3;
-        c.c_chunks = vec![7];
+        c.c_chunks = vec![5];
         c.reader = Pace::Stepped;
         c.reader_buf = 2;
-        c.drops = 1;
+        c.drops = 0;
     });
     add("mss4-snd3-rcv1-t4", &|c| {
         c.mtu = 44;
@@ -204,10 +221,20 @@ fn c16_configs(tier: Tier) -> Vec<TcpCfg> {
         c.mtu = 61;
         c.send_cap = 1;
         c.recv_cap = 5;
-        c.c_chunks = vec![3];
-        c.s_bytes = 3;
+        c.c_chunks = vec![2];
+        c.s_bytes = 2;
         c.mode = Mode::Concurrent;
-        c.drops = 1;
+        c.drops = 0;
+    });
+    // the accepting side sends first, into a client whose receive cap is below the flight
+    add("srvfirst-mss1-snd4-rcv2-s4", &|c| {
+        c.send_cap = 4;
+        c.recv_cap = 2;
+        c.c_chunks = vec![1];
+        c.s_bytes = 4;
+        c.mode = Mode::Concurrent;
+        c.reader_buf = 1;
+        c.drops = 0;
     });
     add("loopback-mss1-snd3-rcv2", &|c| {
         c.topo = Topo::Loopback;
@@ -220,6 +247,23 @@ fn c16_configs(tier: Tier) -> Vec<TcpCfg> {
         c.drops = 0;
     });
     if tier == Tier::Thorough {
+        add("mss2-snd5-rcv3-t7-stepped-D1", &|c| {
+            c.mtu = 42;
+            c.send_cap = 5;
+            c.recv_cap = 3;
+            c.c_chunks = vec![7];
+            c.reader = Pace::Stepped;
+            c.reader_buf = 2;
+        });
+        add("v6-mss1-snd1-rcv5-bidir-D1", &|c| {
+            c.v6 = true;
+            c.mtu = 61;
+            c.send_cap = 1;
+            c.recv_cap = 5;
+            c.c_chunks = vec![3];
+            c.s_bytes = 3;
+            c.mode = Mode::Concurrent;
+        });
         add("mss1500-snd64-rcv5-t8", &|c| {
             c.mtu = 1500;
             c.send_cap = 64;
@@ -227,7 +271,6 @@ fn c16_configs(tier: Tier) -> Vec<TcpCfg> {
             c.c_chunks = vec![7, 1];
             c.reader = Pace::Stepped;
             c.reader_buf = 2;
-            c.drops = 1;
         });
         add("mss2-snd3-rcv3-t8-late-d2", &|c| {
             c.mtu = 42;
@@ -237,7 +280,6 @@ fn c16_configs(tier: Tier) -> Vec<TcpCfg> {
             c.reader = Pace::Late;
             c.reader_buf = 2;
             c.d = 2;
-            c.drops = 1;
         });
         add("ownaddr-mss1-snd2-rcv2", &|c| {
             c.topo = Topo::OwnAddr;
@@ -259,6 +301,10 @@ fn main() {
         eprintln!("usage: vx-netk <C06|C13|C16|C17|C19> <quick|thorough> | vx-netk replay <file>");
         std::process::exit(2);
     }
+    if args[1] == "exp" {
+        exp(&args[2]);
+        return;
+    }
     if args[1] == "replay" {
         replay(&args[2]);
         return;
@@ -273,14 +319,14 @@ fn main() {
                 "payload is a position-revealing counter pattern".into(),
                 "liveness judged only when D*T + 2d + 2 < (retx_max+1)*T (no legitimate retransmit exhaustion)".into(),
             ];
-            let (wall, cap) = tier.pick((Duration::from_secs(40), 3_000_000), (Duration::from_secs(600), 30_000_000));
+            let (wall, cap) = tier.pick((Duration::from_secs(20), 3_000_000), (Duration::from_secs(600), 40_000_000));
             run_tcp_configs(&mut rep, c06_configs(tier), wall, cap);
             rep.finish();
         }
         "C16" => {
             let mut rep = Report::new("C16", tier, "model_checking", "netk");
             rep.rule = "same state graph as C06 with cap / MSS / window invariants evaluated on every state and every emitted packet".into();
-            let (wall, cap) = tier.pick((Duration::from_secs(40), 3_000_000), (Duration::from_secs(600), 30_000_000));
+            let (wall, cap) = tier.pick((Duration::from_secs(20), 3_000_000), (Duration::from_secs(600), 40_000_000));
             run_tcp_configs(&mut rep, c16_configs(tier), wall, cap);
             rep.finish();
         }
@@ -289,13 +335,93 @@ fn main() {
 }
 
 fn replay(path: &str) {
-    let txt = std::fs::read_to_string(path).unwrap_or_else(|e| vx_core::machinery_error(&format!("{e}")));
-    let v: serde_json::Value = serde_json::from_str(&txt).unwrap();
-    println!("property {} clause {}", v["property"], v["clause"]);
-    println!("scenario: {}", v["scenario"]);
-    println!("actions:");
-    for a in v["actions"].as_array().cloned().unwrap_or_default() {
-        println!("  {}", a.as_str().unwrap_or(""));
+    use vx_core::System;
+    let (prop, scenario, choices) = vx_core::report::load_replay(path);
+    let name = scenario.split_whitespace().next().unwrap_or("").to_string();
+    let mut all = vec![];
+    match prop.as_str() {
+        "C06" => {
+            all.extend(c06_configs(Tier::Thorough));
+            all.extend(c06_configs(Tier::Quick));
+        }
+        "C16" => {
+            all.extend(c16_configs(Tier::Thorough));
+            all.extend(c16_configs(Tier::Quick));
+        }
+        _ => {}
     }
-    println!("detail: {}", v["detail"]);
+    let Some(cfg) = all.into_iter().find(|c| c.name == name) else {
+        vx_core::machinery_error(&format!("replay: unknown scenario {name} for {prop}"));
+    };
+    println!("replaying {prop} {}", cfg.describe());
+    let mut s = TcpSys::init(&cfg);
+    s.verbose = true;
+    for (i, &a) in choices.iter().enumerate() {
+        let a = a as u16;
+        println!("--- step {i}: {}", s.describe(a));
+        let r = vx_core::catch(|| s.apply(a));
+        println!("{}", s.trace_state());
+        match r {
+            Ok(Ok(())) => {}
+            Ok(Err(v)) => {
+                println!("VIOLATION clause={} : {}", v.clause, v.detail);
+                std::process::exit(1);
+            }
+            Err(p) => {
+                println!("PANIC {p}");
+                std::process::exit(1);
+            }
+        }
+    }
+    println!("--- fair suffix");
+    let (_, v) = s.finish();
+    match v {
+        Some(v) => {
+            println!("VIOLATION clause={} : {}", v.clause, v.detail);
+            std::process::exit(1);
+        }
+        None => println!("no violation on this history"),
+    }
+}
+
+/// ad-hoc sizing experiments: vx-netk exp key=val,key=val
+fn exp(spec: &str) {
+    let mut c = TcpCfg::base("exp");
+    c.check_caps = false;
+    for kv in spec.split(',') {
+        let (k, v) = kv.split_once('=').unwrap_or((kv, ""));
+        match k {
+            "T" => c.retx_threshold = v.parse().unwrap(),
+            "max" => c.retx_max = v.parse().unwrap(),
+            "W" => c.w = v.parse().unwrap(),
+            "d" => c.d = v.parse().unwrap(),
+            "D" => c.drops = v.parse().unwrap(),
+            "mtu" => c.mtu = v.parse().unwrap(),
+            "snd" => c.send_cap = v.parse().unwrap(),
+            "rcv" => c.recv_cap = v.parse().unwrap(),
+            "rbuf" => c.reader_buf = v.parse().unwrap(),
+            "sbytes" => c.s_bytes = v.parse().unwrap(),
+            "chunks" => c.c_chunks = v.split('+').map(|x| x.parse().unwrap()).collect(),
+            "mode" => c.mode = match v { "seq" => Mode::Sequential, "conc" => Mode::Concurrent, _ => Mode::DropClose },
+            "reader" => c.reader = match v { "eager" => Pace::Eager, "stepped" => Pace::Stepped, _ => Pace::Late },
+            "writer" => c.writer = match v { "eager" => Pace::Eager, _ => Pace::Stepped },
+            "caps" => c.check_caps = v == "1",
+            "live" => c.liveness = v == "1",
+            _ => panic!("unknown key {k}"),
+        }
+    }
+    c.liveness = c.liveness && c.bounded_loss_ok();
+    let mut b = BfsConfig::new("exp");
+    b.wall = Duration::from_secs(120);
+    let t = std::time::Instant::now();
+    let st = explore_bfs::<TcpSys>(&b, &c);
+    println!("{}", c.describe());
+    println!(
+        "states={} transitions={} execs={} outcomes={} depth={} closed={} violations={} caps={:?} {:.1}s",
+        st.part.states, st.part.transitions, st.part.executions, st.part.distinct_outcomes, st.part.max_depth,
+        st.closed, st.violations.len(), st.part.caps_hit, t.elapsed().as_secs_f64()
+    );
+    for v in st.violations.iter().take(3) {
+        println!("  {} :: {}", v.sig, v.detail);
+    }
 }
